@@ -282,7 +282,7 @@ def body0(head):
 
 
 NP_NAMES = ("asarray", "array", "atleast_1d", "asanyarray", "take", "astype", "copy", "squeeze", "isnan", "isfinite", "isinf", "nditer", "clip", "minimum", "maximum", "fmin",
-            "fmax", "where", "full_like", "min", "max", "amin", "amax", "nanmin", "nanmax", "any", "all")
+            "fmax", "where", "full_like", "min", "max", "amin", "amax", "nanmin", "nanmax", "any", "all", "ndim", "size", "isscalar")
 
 
 def setter(check: Check) -> None:
@@ -310,7 +310,7 @@ def setter(check: Check) -> None:
                     cases += 1
                     obj = MObj("OutputVariable", {"lock_range": lock, "minimum": bounds[0], "maximum": bounds[1], "_value": am.Arr([NAN], True), "name": Opaque("name")})
                     hooks = {"setitem": am.setitem, "scalar": lambda ex_, e, args, kw: am.as_arr(args[0]), "array": lambda ex_, e, args, kw: am.as_arr(args[0]),
-                             "compare": am.compare, "truth": am.truth, "instance-of": am.instance_of}
+                             "compare": am.compare, "truth": am.truth, "instance-of": am.instance_of, "builtin:min": am.minmax("min"), "builtin:max": am.minmax("max")}
                     for nm in NP_NAMES:
                         hooks[f"method:{nm}"] = am.np_call(nm)
                     ex = AbsExec(fn.qualname, hooks, helpers={k: v for k, v in fn.cls.methods.items() if k.startswith("_") and not k.startswith("__")})
@@ -460,10 +460,34 @@ def array_model(qual: str):  # type: ignore[no-untyped-def]
             return True
         return NotImplemented
 
+    def minmax(name: str):
+        """Python's own min(a, b, ...) / max(a, b, ...) on model values: the first argument is kept unless a later one compares smaller / larger
+        (so a NaN first argument stays and a NaN later argument is skipped); a comparison with a multi-element array has no truth value."""
+        def f(ex_, e, args):
+            if not any(isinstance(a, (Arr, Ref)) or a == NAN for a in args) or len(args) < 2:
+                return NotImplemented
+            best = args[0]
+            for x in args[1:]:
+                c = compare(ex_, "<" if name == "min" else ">", x, best)
+                if c is NotImplemented:
+                    c = (x < best) if name == "min" else (x > best)
+                t = truth(ex_, c) if isinstance(c, (Arr, Ref)) else bool(c)
+                if t:
+                    best = x
+            return best
+        return f
+
     def np_call(name: str):
         def f(ex_, e, recv, args, kw):
             if name in ("asarray", "array", "atleast_1d", "scalar", "asanyarray"):
                 return as_arr(args[0])
+            if name in ("ndim", "size", "isscalar"):
+                v = args[0] if args else recv
+                if name == "isscalar":
+                    return not isinstance(v, Arr)
+                if name == "ndim":
+                    return 1 if isinstance(v, Arr) and not v.zero_d else 0
+                return len(v.items) if isinstance(v, Arr) else 1
             if name == "take":
                 a = as_arr(args[0] if args else kw.get("a"))
                 idx_ = args[1] if len(args) > 1 else kw.get("indices")
@@ -534,7 +558,7 @@ def array_model(qual: str):  # type: ignore[no-untyped-def]
             return
         raise Unknown(f"{qual}: this element assignment is outside the model of the cascade")
 
-    return SimpleNamespace(Arr=Arr, Ref=Ref, elems=elems, as_arr=as_arr, clipped=clipped, np_call=np_call, setitem=setitem, compare=compare, truth=truth, instance_of=instance_of, mark=mark)
+    return SimpleNamespace(Arr=Arr, Ref=Ref, elems=elems, as_arr=as_arr, clipped=clipped, np_call=np_call, setitem=setitem, compare=compare, truth=truth, instance_of=instance_of, mark=mark, minmax=minmax)
 
 
 def cascade_semantics(check: Check) -> None:
@@ -620,7 +644,7 @@ def cascade_semantics(check: Check) -> None:
                 obj.fields["defuzzifier"] = MObj("Defuzzifier", {})
                 hooks = {"method:defuzzify": defuzzify, "setitem": setitem, "enter": enter, "scalar": lambda ex_, e, args, kw: as_arr(args[0]),
                          "array": lambda ex_, e, args, kw: as_arr(args[0]), "compare": am.compare, "truth": am.truth,
-                         "instance-of": am.instance_of}
+                         "instance-of": am.instance_of, "builtin:min": am.minmax("min"), "builtin:max": am.minmax("max")}
                 for nm in NP_NAMES:
                     hooks[f"method:{nm}"] = np_call(nm)
                 ex = AbsExec(fn.qualname, hooks, helpers={k: v for k, v in fn.cls.methods.items() if k.startswith("_") and not k.startswith("__")})
